@@ -20,6 +20,15 @@ for d in sorted((ROOT / "seeded").glob("*/meta.json")):
     srows.append(f"| {d.parent.name} | {m.get('property')} | {summ} | {needs} | {'yes' if v.get('detected') else 'NO'} | "
                  f"{'yes' if v.get('detected_with_failing_input') else 'no'} | {keys} |")
 seeded = "\n".join(srows)
+rrows = ["| refactor | prop | kinds | what it changes (behaviour-preserving) | baseline | check exit | alarm |", "|---|---|---|---|---|---|---|"]
+for d in sorted((ROOT / "seeded" / "refactors").glob("*/meta.json")):
+    m = json.loads(d.read_text())
+    v = m.get("verification", {})
+    summ = (m.get("summary") or "").split(". ")[0][:260].replace("|", "\\|").replace("\n", " ")
+    kinds = str(m.get("kinds", ""))[:40].replace("|", "/")
+    rrows.append(f"| {d.parent.name} | {m.get('property')} | {kinds} | {summ} | {'pass' if v.get('baseline_rc') == 0 else 'FAIL'} | "
+                 f"{v.get('check_rc')} | {'ALARM' if v.get('alarm') else 'none'} |")
+refactors = "\n".join(rrows)
 # per-property status from the evidence files of the last runs
 props = {json.loads(l)["id"]: json.loads(l) for l in (ROOT / "properties.jsonl").read_text().splitlines() if l.strip()}
 strows = ["| prop | title | theorems | _partial | _cex | tier | correspondence cases (mismatches) | oracle evaluations | known findings hit | wall s |",
@@ -42,7 +51,7 @@ for c in man["checks"]:
 asbuilt = "\n".join(ab)
 p = ROOT / "DESIGN.md"
 s = p.read_text()
-for name, body in (("FINDINGS", findings), ("SEEDED", seeded), ("STATUS", status), ("ASBUILT", asbuilt)):
+for name, body in (("FINDINGS", findings), ("SEEDED", seeded), ("STATUS", status), ("ASBUILT", asbuilt), ("REFACTORS", refactors)):
     b, e = f"<!-- BEGIN {name} -->", f"<!-- END {name} -->"
     if b in s:
         s = s[: s.index(b) + len(b)] + "\n" + body + "\n" + s[s.index(e):]
